@@ -17,10 +17,13 @@ inductive Step (P : Params) (s : State) : State → Prop where
       (hp : s.phase i = .reading (.read l k) reads blocked) (hr : resolve s.mv i l = some (j, e)) :
       Step P s (setPhase s i (.reading (k e.val)
         ({ loc := l, ver := some (j, e.inc), val := e.val } :: reads) (blocked || e.est)))
-  | execReadBase (i : TxId) (l : Loc) (k : Val → Prog) (reads : List ReadRec) (blocked : Bool)
+  | execReadMiss (i : TxId) (l : Loc) (k : Val → Prog) (reads : List ReadRec) (blocked : Bool)
       (hp : s.phase i = .reading (.read l k) reads blocked) (hr : resolve s.mv i l = none) :
-      Step P s (setPhase s i (.reading (k (P.base l))
-        ({ loc := l, ver := none, val := P.base l } :: reads) blocked))
+      Step P s (setPhase s i (.fetching l k reads blocked))
+  | execFetch (i : TxId) (l : Loc) (k : Val → Prog) (reads : List ReadRec) (blocked : Bool)
+      (hp : s.phase i = .fetching l k reads blocked) :
+      Step P s (setPhase s i (.reading (k (cval P s s.com l))
+        ({ loc := l, ver := none, val := cval P s s.com l } :: reads) blocked))
   | execFinishOk (i : TxId) (w : List (Loc × Val)) (o : Nat) (reads : List ReadRec) (blocked : Bool)
       (hp : s.phase i = .reading (.done w o) reads blocked) :
       Step P s { s with hist := fun j m => if j = i ∧ m = s.inc i then some w else s.hist j m,
@@ -131,7 +134,12 @@ theorem step_sound {P : Params} {s s' : State} {a : Act} (h : step P s a = some 
     · rename_i l k reads blocked hp
       split at h
       · rename_i j e hr; simp at h; subst h; exact .execReadMv i l k reads blocked j e hp hr
-      · rename_i hr; simp at h; subst h; exact .execReadBase i l k reads blocked hp hr
+      · rename_i hr; simp at h; subst h; exact .execReadMiss i l k reads blocked hp hr
+    · simp at h
+  | execFetch i =>
+    simp only [step] at h
+    split at h
+    · rename_i l k reads blocked hp; simp at h; subst h; exact .execFetch i l k reads blocked hp
     · simp at h
   | execFinish i =>
     simp only [step] at h
